@@ -21,11 +21,14 @@ import numpy as np
 from fractions import Fraction
 from harness import util, dyn
 
-THEOREMS = ['C12_factor_homomorphism', 'C12_welldim_homogeneous', 'C12_scale_independence', 'C12_columns_homogeneous',
-            'C12_nodal_terms_homogeneous', 'C12_moist_and_vertical_terms_homogeneous', 'C12_step_covariant',
-            'C12_trajectory_covariant', 'C12_column_relations', 'C12_column_hypotheses_discharged',
-            'C12_column_steps_covariant', 'C12_held_suarez_homogeneous', 'C12_log_pressure_shift',
-            'C12_p_over_p0_invariant', 'C12_p_over_p0_invariant_R', 'C12_hyps_satisfiable', 'C12_column_hyps_satisfiable']
+THEOREMS = ['C12_factor_homomorphism', 'C12_welldim_homogeneous', 'C12_scale_independence',
+            'C12_columns_homogeneous', 'C12_nodal_terms_homogeneous', 'C12_moist_and_vertical_terms_homogeneous',
+            'C12_step_covariant', 'C12_trajectory_covariant', 'C12_column_relations',
+            'C12_column_hypotheses_discharged', 'C12_column_steps_covariant', 'C12_modal_tendencies_covariant',
+            'C12_held_suarez_homogeneous', 'C12_held_suarez_nondim_commutes', 'C12_held_suarez_R',
+            'C12_log_pressure_shift', 'C12_p_over_p0_invariant', 'C12_p_over_p0_invariant_R',
+            'C12_hyps_satisfiable', 'C12_column_hyps_satisfiable', 'C12_held_suarez_hyps_satisfiable',
+            'C12_modal_hyps_satisfiable']
 LEVEL = 'proof'
 LEVEL_TEXT = ('Coq theorems for every field and all non-zero scales: factor is a group homomorphism Z^4 -> F*; EVERY '
               'dimensionally well-typed expression of field operations is scale-covariant (hence re-dimensionalised '
@@ -36,7 +39,9 @@ LEVEL_TEXT = ('Coq theorems for every field and all non-zero scales: factor is a
               'hypotheses on implicit terms and resolvent are PROVED (rescaled inverse = inverse of the rescaled matrix; '
               'uses functional extensionality), only the explicit terms stay abstract; Held-Suarez rates / equilibrium '
               'temperature / nodal tendencies covariant over ordered fields with positive temperature scale, p/p0 '
-              'invariant; gradients kill the log-pressure shift and exp(lnps)/p0 is invariant. Call-graph bypasses '
+              'invariant, and Held-Suarez on non-dimensionalised inputs = non-dimensionalisation of the SI values for EVERY '
+              'power / log function (also over R with Rpower, ln, exp, from the log surface pressure); explicit and '
+              'implicit tendencies of all four classes assembled over abstract horizontal operators are covariant; gradients kill the log-pressure shift and exp(lnps)/p0 is invariant. Call-graph bypasses '
               '(hard-coded constants) are outside the algebra and are decided on the implementation: same SI problem '
               'under >= 4 scales, all equation classes, plus AST scans of scale-dependent default arguments, of module '
               'constants used in bodies and of numeric literal defaults of dimensional parameters.')
